@@ -39,3 +39,27 @@ package otlp
 //@   ensures [own-trace-id-is-kept] implies(result2 == nil && ghost(0, "otlpTrace") != "", result0.TraceId == ghost(0, "otlpTrace"))
 //@   ensures [own-span-id-is-kept] implies(result2 == nil && ghost(0, "otlpSpan") != "", result0.SpanId == ghost(0, "otlpSpan"))
 //@ end
+
+// C16 (a metric data point is stored at its own event time): whatever kind of
+// OTLP metric it belongs to (gauge, sum, histogram, exponential histogram,
+// summary), the extracted point carries the data point's own TimeUnixNano —
+// never the start of its observation window — and the metric's name.
+//@ func extractAttributes
+//@   assumed
+//@   pure
+//@   note frame only (ASSUMED): builds a new map from the attribute list (regexp and protobuf getters are external); writes nothing the caller can see
+//@ end
+//@ func processMetric
+//@   props C16
+//@   assumecalleerequires
+//@   site call append #1:
+//@     assert [gauge-point-keeps-its-own-time] arg1[0].TimeUnixNano == dataPoint.TimeUnixNano && arg1[0].Name == metric.Name
+//@   site call append #2:
+//@     assert [sum-point-keeps-its-own-time] arg1[0].TimeUnixNano == dataPoint.TimeUnixNano && arg1[0].Name == metric.Name
+//@   site call append #3:
+//@     assert [histogram-point-keeps-its-own-time] arg1[0].TimeUnixNano == dataPoint.TimeUnixNano && arg1[0].Name == metric.Name
+//@   site call append #4:
+//@     assert [exponential-histogram-point-keeps-its-own-time] arg1[0].TimeUnixNano == dataPoint.TimeUnixNano && arg1[0].Name == metric.Name
+//@   site call append #5:
+//@     assert [summary-point-keeps-its-own-time] arg1[0].TimeUnixNano == dataPoint.TimeUnixNano && arg1[0].Name == metric.Name
+//@ end
